@@ -57,6 +57,11 @@ var props = map[string]propSpec{
 		Rule: "rapid draws New(sig, exp) with sig over int64 (bounds, powers of ten, digit patterns, uniform) and exp over -7000..7000, windows around -6176-25..-6176+20 and 6111-5..6111+45, +-13000 and int extremes; Ldexp(frac, exp) with finite frac over the full range and exp steered so that frac's exponent + exp lands in the subnormal/overflow windows even when exp alone is out of range; Frexp over all patterns. Oracle: exact sig*10^exp / frac*10^exp rounded nearest-even with the 1e-6177 flush rule; Frexp: 0.1<=|frac|<1, frac*10^e == d exactly, Ldexp(Frexp(d)) has d's value. Non-trivial = result clamped/rounded/compensated (New, Ldexp) or finite non-zero argument (Frexp); distinct = distinct arguments.",
 		Assumptions: commonAssumptions,
 	},
+	"C10": {
+		QuickShards: 8, ThoroughShards: 16,
+		Rule: "rapid draws (a) int64/uint64 values incl. all type bounds for the four exact constructors, (b) big.Int up to 21k bits (random bits <=128/129..256/>256, c*10^k with tie patterns through the 1e18-step reduction, the overflow threshold, powers of two) for FromInt, (c) Decimals near every type bound at scales 0..15, fractions just below an integer, values in (-1,1), huge exponents for Int (nil and pre-loaded receiver) and Int64/Int32/Uint64/Uint32 against exact truncation, (d) Decimals for Rat and the FromRat(Rat(d)) round trip, (e) rationals from digit strings <=34 digits (correct rounding) and from the big.Int generator (2e-33 relative tolerance, neighbours at the edges of the range). Non-trivial = case near a type bound / beyond 2^128 / non-integer / coefficient beyond 113 bits / any rational; distinct = distinct arguments.",
+		Assumptions: commonAssumptions,
+	},
 	"C01": {
 		QuickShards: 8, ThoroughShards: 16,
 		Rule: "rapid draws operand pairs (independent; exponent gap -45..45; tie/near-tie constructor at the 34/35-digit boundary; near-cancellation across cohorts; swallowed operand up to gap 12287; zeros; overflow edge) and add/sub; every pair is evaluated under all 6 modes and under all 6 DefaultRoundingMode values against the exact integer sum rounded by ref.RoundX. Non-trivial = the exact sum is not representable (rounding decides) or the operands cancel exactly; distinct = distinct (x bits, y bits, op).",
